@@ -17,7 +17,7 @@ REQUIRED_FLAGS = ["signature_change", "key_change", "note_crosses_bar_line", "un
                   "one_tick_over", "exact_multiple", "meta_last", "requantise_on", "requantise_off", "three_tracks",
                   "fragment_shrunk_by_requantisation"]
 
-SIG = {"44": (4, 4), "34": (3, 4), "24": (2, 4), "68": (6, 8), "58": (5, 8), "22": (2, 2)}
+SIG = {"44": (4, 4), "34": (3, 4), "24": (2, 4), "68": (6, 8), "58": (5, 8), "22": (2, 2), "716": (7, 16), "516": (5, 16), "32": (3, 2)}
 
 
 def blen(sig):
@@ -110,6 +110,12 @@ def gen_cases(unit, ctx):
             for ns in ([], [al[0]], [al[-1]]):
                 for q in (True, False):
                     yield {"plan": plan, "keys": list(keys), "tracks": [{"notes": [list(n) for n in ns], "cap": end}], "meta": 0, "q": q}
+            # a side track that ended earlier and an empty one: their placeholder bars carry the key in force too
+            for q in (True, False):
+                for meta in (0, 2):
+                    yield {"plan": plan, "keys": list(keys), "meta": meta, "q": q,
+                           "tracks": [{"notes": [list(al[-1])], "cap": end}, {"notes": [[0, 6, p + 7, 1, 50]], "cap": None},
+                                      {"notes": [], "cap": None}]}
     else:
         for ns in ([], [al[1]], [al[-1]]):
             for meta in (0, 2):
